@@ -431,7 +431,7 @@ def configs(tier):
     if tier == 'quick':
         degs, fams, cells = [1, 2, 3, 4, 5], ['uniform', 'graded', 'irregular'], lambda d: [d, d + 1, d + 3]
     else:
-        degs, fams, cells = [1, 2, 3, 4, 5, 6], ['uniform', 'graded', 'alternating', 'geometric', 'irregular'], lambda d: [1, 2, 3, d, d + 1, 8]
+        degs, fams, cells = [1, 2, 3, 4, 5, 6, 7, 8, 9, 10], ['uniform', 'graded', 'decreasing', 'alternating', 'geometric', 'irregular'], lambda d: [1, 2, 3, d, d + 1, d + 2, 8, 12]
     for d in degs:
         for fam in fams:
             for n in sorted(set(cells(d))):
@@ -501,7 +501,7 @@ def main():
     numenv.enable()
     run.stubs = sorted(set(numenv.STUBS))
     numenv.disable()
-    run.bounds = dict(quick='degrees 1-5, 3 knot families, cells d+1/d+3, uniform cubic fast path 1,2,3,5 cells', thorough='degrees 1-6, 5 families, cells {1,2,3,d+1,8}', this_run=run.tier)
+    run.bounds = dict(quick='degrees 1-5, 3 knot families, cells d+1/d+3, uniform cubic fast path 1,2,3,5 cells', thorough='degrees 1-10, 6 families, cells {1,2,3,d,d+1,d+2,8,12}', this_run=run.tier)
     run.outside = ['rounding of the arithmetic (the discrete decisions of the uniform-cubic clamped constructor -- knot spans of its auxiliary evaluation points -- ARE decided for all doubles xmin in [-100,100], width in [2^-6,200], listed cell counts: rounded-real model, every operation exact + e with |e| <= 2^-53*4096)', 'LAPACK/SuperLU elimination (contract)', 'symbolic break points for the weights (thorough decides the stored basis integrals for all break points of degree 1-2 spaces with 2-3 cells and one symbolic break point of cubic spaces)']
     run.assumptions = ['exact reals for doubles', 'solver contracts as in C08']
     run.finish(
